@@ -118,6 +118,9 @@ def gen_cases(rng, tier):
         for via in ('delete', 'concat'):
             cases.append({'kind': 'autoname', 'n': n_, 'drop': drop, 'via': via, 'pkg': []})
     cases.append({'kind': 'autoname', 'n': 12, 'drop': 8, 'via': 'concat', 'then_delete': 10, 'pkg': []})
+    for up in sorted(LIVE_UP):
+        for then in (False, True):
+            cases.append({'kind': 'liveload', 'up': up, 'then': then, 'pkg': []})
     return cases
 
 
@@ -221,9 +224,40 @@ def run_autoname(case):
         return {'error': 1, 'exc': '%s: %s' % (type(c).__name__, str(c)[:200])}
 
 
+LIVE_UP = {'plain': lambda: [], 'concat': lambda: [DF.concatenate({'k': []}, target={'name': 'merged'}, resources=['res_1', 'res_2'])],
+           'concat_last': lambda: [DF.concatenate({'k': []}, target={'name': 'merged'}, resources=['res_2', 'res_3'])],
+           'duplicate': lambda: [DF.duplicate('res_1')], 'duplicate_end': lambda: [DF.duplicate('res_2', duplicate_to_end=True)],
+           'delete': lambda: [DF.delete_resource('res_2')]}
+
+
+def live_up_links(which):
+    return [[{'k': i, 'v': 'x%d' % i} for i in range(4)], [{'k': 10 + i, 'w': i} for i in range(8)], [{'k': 100 + i} for i in range(1200 if which != 'plain' else 3)]] + LIVE_UP[which]()
+
+
+def run_liveload(case):
+    """load((descriptor, resources)) appending the live stream of another flow that restructures its resources: they arrive
+    after the existing resource, each with the rows it has when that flow is read in turn"""
+    try:
+        with quiet():
+            ref_rows, ref_dp, _ = Flow(*live_up_links(case['up'])).results()
+            ds = Flow(*live_up_links(case['up'])).datastream()
+            rows, dp, _ = Flow([{'z': 1}, {'z': 2}], DF.load((ds.dp.descriptor, ds.res_iter)), *([DF.add_field('t', 'integer', 0)] if case['then'] else [])).results()
+        strip = lambda rs: [dict((k, v) for k, v in r.items() if k != 't') for r in rs]
+        return {'names': [r.name for r in dp.resources], 'want_names': ['res_1'] + [r.name for r in ref_dp.resources],
+                'counts': [len(x) for x in rows], 'want_counts': [2] + [len(x) for x in ref_rows],
+                'same': [strip(a) == b for a, b in zip(rows[1:], ref_rows)]}
+    except Exception as e:
+        c = e
+        while type(c).__name__ == 'ProcessorError' and getattr(c, 'cause', None) is not None:
+            c = c.cause
+        return {'error': 1, 'exc': '%s: %s' % (type(c).__name__, str(c)[:200])}
+
+
 def run_impl(case):
     if case['kind'] == 'autoname':
         return run_autoname(case)
+    if case['kind'] == 'liveload':
+        return run_liveload(case)
     res = src_resources(case['pkg'])
     steps = steps_of(case)
     one_shot = case['kind'] == 'append' and case['how'] in ('load_tuple', 'sources')
@@ -331,6 +365,14 @@ def same_res(a, b, path=True):
 
 
 def oracle(case, out):
+    if case['kind'] == 'liveload':
+        what = 'load((descriptor, resources)) of the live stream of a flow with %s' % case['up']
+        if 'error' in out:
+            return '%s failed: %s' % (what, out['exc'])
+        if out['names'][1:] != out['want_names'][1:] or out['counts'] != out['want_counts'] or not all(out['same']):
+            return '%s appended %r with %r rows; read in turn that flow gives %r with %r rows' % (
+                what, out['names'][1:], out['counts'][1:], out['want_names'][1:], out['want_counts'][1:])
+        return None
     if case['kind'] == 'autoname':
         if 'error' in out:
             return 'autoname: run failed (%s)' % out['exc']
@@ -416,6 +458,8 @@ def crname(name):
 
 
 def coq_term(case, out):
+    if case['kind'] == 'liveload':
+        return None
     if case['kind'] == 'autoname':
         # the model's rule applied to the names that were there when the last iterable was added must give the name the
         # library gave it
@@ -459,7 +503,7 @@ def coq_term(case, out):
 
 
 def nontrivial(case, out):
-    return case['kind'] == 'autoname' or 'error' in out or [r['name'] for r in out['pkg']] != [r['name'] for r in case['pkg']] or \
+    return case['kind'] in ('autoname', 'liveload') or 'error' in out or [r['name'] for r in out['pkg']] != [r['name'] for r in case['pkg']] or \
         any(a['rows'] != b['rows'] for a, b in zip(out['pkg'], case['pkg']))
 
 
